@@ -9,6 +9,7 @@ import vlib
 PLAN = {
     "c01_parse": ["asan", "plain"],
     "c05_arith": ["asan"],
+    "c16_lit": ["asan"],
 }
 
 
